@@ -1,5 +1,5 @@
 """C13: read-only invocations never modify the device.  Every image x every read-only invocation: bytes before == bytes after."""
-import os, json, hashlib, subprocess
+import os, json, hashlib, subprocess, time
 from vlib.common import *
 from vlib import fsweep
 from xck.image import Image
@@ -45,7 +45,9 @@ def pipeline(job):
                                   'resize2fs -P -f', 'e2freefrag -c', 'e2image -ra', 'e2image -Qa', 'mke2fs -n ext4', 'debugfs modifying request without -w'):
             continue
         if os.path.exists(out): os.unlink(out)
+        _t = time.time()
         rc, txt = run(argv, timeout=6)
+        if os.environ.get('VERIF_C13_PROFILE') and time.time() - _t > 1.0: log('[slow %.1fs] %s %s rc=%s' % (time.time() - _t, mid, label, rc))
         n += 1
         st = os.stat(p)
         if (st.st_mtime_ns, st.st_size) != sig0:       # any successful write/truncate moves mtime (tmpfs): only then pay for a full comparison
